@@ -81,6 +81,49 @@ impl<T: 'static> AnyValue for FakeVal<T> {
     }
 }
 
+/// A user-implemented value with a statically known element type: larger than the element (the value is followed by other
+/// fields), and - as the trait documentation allows - its `move_into` copies exactly the `bytes_size` bytes it is told.
+#[repr(C)]
+pub struct UserTyped<T: 'static> {
+    val: ManuallyDrop<T>,
+    tail: [u8; 40],
+}
+impl<T: 'static> UserTyped<T> {
+    pub fn new(val: T) -> Self {
+        UserTyped { val: ManuallyDrop::new(val), tail: [0xE7; 40] }
+    }
+}
+impl<T: 'static> Drop for UserTyped<T> {
+    fn drop(&mut self) {
+        unsafe { ManuallyDrop::drop(&mut self.val) }
+    }
+}
+impl<T: 'static> AnyValueSizeless for UserTyped<T> {
+    type Type = T;
+    fn as_bytes_ptr(&self) -> *const u8 {
+        &*self.val as *const T as *const u8
+    }
+    unsafe fn move_into<KnownType: 'static>(self, out: *mut u8, bytes_size: usize) {
+        std::ptr::copy_nonoverlapping(self.as_bytes_ptr(), out, bytes_size);
+        std::mem::forget(self);
+    }
+}
+impl<T: 'static> AnyValueTypeless for UserTyped<T> {
+    fn size(&self) -> usize {
+        size_of::<T>()
+    }
+}
+impl<T: 'static> AnyValue for UserTyped<T> {
+    fn value_typeid(&self) -> TypeId {
+        TypeId::of::<T>()
+    }
+}
+impl<T: 'static + Clone> any_vec::any_value::AnyValueCloneable for UserTyped<T> {
+    unsafe fn clone_into(&self, out: *mut u8) {
+        (out as *mut T).write(T::clone(&self.val));
+    }
+}
+
 /// Replacement-iterator wrapper: every `next` is a user-code invocation for the fault injector;
 /// `len()` may be misreported by `delta`.
 pub struct UserIter<I> {
@@ -454,6 +497,29 @@ impl<'a, T: Elem + SatisfyTraits<Tr>, M: MemCaps, Tr: ?Sized + TrCaps> Cx<'a, T,
                 assert_ne!(v, *w, "HARNESS: source == destination");
                 let h = self.vec(*w).pop().expect("HARNESS: pop source empty");
                 put(dst, at, h)
+            }
+            Src::HandleUnchecked(w) => {
+                assert_ne!(v, *w, "HARNESS: source == destination");
+                if at.map_or(false, |i| i > dst.len()) {
+                    // the unchecked entry point must not be given an index out of range: use the checked one (it panics)
+                    let h = self.vec(*w).pop().expect("HARNESS: pop source empty");
+                    return put(dst, at, h);
+                }
+                let h = self.vec(*w).pop().expect("HARNESS: pop source empty");
+                crate::caps::put_unchecked(dst, at, h)
+            }
+            Src::UserTyped(id) => put(dst, at, UserTyped::new(T::make(*id))),
+            Src::UserLazy(id) => {
+                let u = UserTyped::new(T::make(*id));
+                {
+                    let lz = any_vec::any_value::AnyValueCloneable::lazy_clone(&u);
+                    let l2 = any_vec::any_value::AnyValueCloneable::lazy_clone(&lz);
+                    if lz.size() != size_of::<T>() || lz.as_bytes().len() != size_of::<T>() || l2.size() != size_of::<T>() || lz.value_typeid() != TypeId::of::<T>() {
+                        self.note(format!("lazy clone of a user value of {} bytes reports size {} / {} bytes (depth 2: {})", size_of::<T>(), lz.size(), lz.as_bytes().len(), l2.size()));
+                    }
+                    put(dst, at, lz);
+                }
+                drop(u)
             }
             Src::Remove(w, j) => {
                 assert_ne!(v, *w, "HARNESS: source == destination");
